@@ -26,6 +26,7 @@ RULE = ('headers: internal / external-in / external-out with address forms (std 
         'to the same message. Wrappers (StateInit, TickTock, CurrencyCollection, ExtraCurrencyCollection, WalletV3Data, WalletV4Data, NftItemData, HashUpdate, '
         'AccountStatus): bits equal the reference encoding and deserialize(serialize(x)) == x. non-trivial = message with a state-init, extra currencies or a body '
         'reference; states = distinct messages / placements; transitions = library calls; traces = reference decodes and comparisons')
+RULE += ' Fifth session: every parsed message (own and alternative placements) and every parsed wrapper value is serialised again and decoded per schema; extra-currency entries with amount 0; bodies that are exotic cells (library reference, Merkle proof): only by reference.'
 LEVEL_TEXT = ('Bounded-exhaustive over the joint bit/reference budget of header, state-init and body: every header class, every state-init shape and every body size '
               'at which an inline/by-reference decision can flip is serialised by the real code and read back by an independent interpreter of the TL-B schema and by '
               'the library parser; all alternative valid placements are fed to the parser.')
